@@ -21,20 +21,21 @@ type divMonitor struct {
 	faulted atomic.Bool
 	applied atomic.Bool // a result was corrupted, whether or not it counts as a fault by the property's condition
 
-	mu            sync.Mutex
-	allowed       map[uint]bool
-	contract      []string
-	listLens      map[int]int
-	maxDiv        uint
-	prevDiv       uint
-	faultCall     int64
-	faultR1       int64
-	faultL        int
-	faultR2       int64
-	faultIn       bool
-	faultLUnknown bool
-	faultDesc     string
-	roundDivs     int64
+	mu                sync.Mutex
+	allowed           map[uint]bool
+	gracefulRequested atomic.Bool // v1: GracefulStop() has been called by the harness
+	contract          []string
+	listLens          map[int]int
+	maxDiv            uint
+	prevDiv           uint
+	faultCall         int64
+	faultR1           int64
+	faultL            int
+	faultR2           int64
+	faultIn           bool
+	faultLUnknown     bool
+	faultDesc         string
+	roundDivs         int64
 
 	afterFault atomic.Int64
 }
@@ -126,6 +127,8 @@ func (m *divMonitor) divideFull(p []uint, q uint, d map[uint]uint, v1NilDist boo
 		switch {
 		case f.Trigger == "" && int64(f.At) == k:
 			inject = true
+		case f.Trigger == "after-graceful":
+			inject = roundDivision && m.gracefulRequested.Load()
 		case f.Trigger == "after-H":
 			inject = roundDivision && prev == sc.H && k > 1
 		case len(f.Trigger) > 9 && f.Trigger[:9] == "inflight=":
